@@ -876,10 +876,13 @@ class mulgrid(object):
 
     def layer_name(self, blockname):
         """Returns layer name of block name."""
-        if self.convention == 0: return blockname[3: 5]
+        if self.convention in [0, 3]:
+            name = blockname[3: 5]
+            # (block_name() may have replaced a blank with a zero- see fix_blockname():)
+            if name in self.layer: return name
+            else: return unfix_blockname(blockname)[3: 5]
         elif self.convention == 1: return blockname[0: 3]
         elif self.convention == 2: return blockname[0: 2]
-        elif self.convention == 3: return blockname[3: 5]
         else: return None
 
     def node_col_name_from_number(self, num, justfn = str.rjust,
